@@ -796,7 +796,9 @@ theorem setParams_init_inv (bs g pcThr certThr : Nat) (vs : List Validator) (s0 
   · cases h
   · split at h
     · cases h
-    · simp only at h
+    · split at h
+      · cases h
+      simp only at h
       split at h
       · cases h
       · split at h
